@@ -401,7 +401,10 @@ func c08E1(r *eng.Run) {
 	for _, x := range hardStrings() {
 		hard = append(hard, []byte(x), []byte("["+x+","+x+"]"), []byte(`{`+x+`:[`+x+`]}`))
 	}
-	n += runFamily(r, "hard-numbers-and-strings", sp.entry, hard, checkStyles)
+	for _, x := range relatedNameDocs() {
+		hard = append(hard, []byte(x))
+	}
+	n += runFamily(r, "hard-numbers-strings-and-related-names", sp.entry, hard, checkStyles)
 	r.Add("states", res.st.States)
 	r.Add("transitions", (res.st.Transitions+res.pumped+n)*len(activeStyles))
 	r.Add("traces_validated_against_impl", (res.validated+n)*len(activeStyles))
